@@ -1,5 +1,6 @@
 """Rule kinds (DESIGN section 3) over the fact base. Every helper records what it inspected in the
 Report and returns True when the instance holds."""
+import re
 from collections import defaultdict
 
 from facts import AnchorLost, rx
@@ -897,6 +898,9 @@ def _proj_compatible(a, b):
     return a[:n] == b[:n]
 
 
+_FORM_FIELDS = False
+
+
 def expr_sig(body, op, depth=0, seen=None, out=None):
     """Arithmetic signature of the value an operand holds: the multiset of arithmetic operators and integer literals
     met while walking back through copies, refs, casts, field reads, value-preserving calls and arithmetic itself;
@@ -916,11 +920,15 @@ def expr_sig(body, op, depth=0, seen=None, out=None):
     local = op["p"][0]
     projs = op["p"][1]
     # tuple field .#1 of a WithOverflow result is the overflow flag: not a value
-    if local in seen:
+    if local in seen and not (_FORM_FIELDS and 1 <= local <= body.argc and not body.defs().get(local)):
         return out
     seen.add(local)
     if 1 <= local <= body.argc and not body.defs().get(local):
-        out.append("leaf:param:%s" % (body.local_names().get(local) or local))
+        fld = ""
+        if _FORM_FIELDS:
+            fs = [str(x).split(".")[-1] for x in projs if str(x).startswith(".")]
+            fld = "".join("." + x for x in fs if x)
+        out.append("leaf:param:%s%s" % (body.local_names().get(local) or local, fld))
         return out
     ds = body.defs().get(local, [])
     if not ds:
@@ -1145,3 +1153,192 @@ def direct_aggs(body, op, adt_prefix, depth=0, seen=None):
             if rx(r"(::into_vec|::into|::clone|::to_owned|::as_ref|::to_vec|Deref::deref|::as_slice)$").search(c.callee) and c.args:
                 out |= direct_aggs(body, c.args[0], adt_prefix, depth + 1, seen)
     return out
+
+
+# ------------------------------------------------------------------ FORM: value forms and returned-value classification
+
+def _short_leaf(x):
+    if x.startswith("leaf:call:"):
+        p = re.sub(r"<[^<>]*>", "", re.sub(r"<[^<>]*>", "", x[10:]))
+        return "call:" + "::".join(p.split("::")[-2:])
+    if x.startswith("leaf:const:"):
+        return "const:" + x[11:].split("::")[-1]
+    return x
+
+
+def form(body, op):
+    """Multiset (sorted tuple) of operators, literals and leaves of the expression an operand holds; parameters are
+    positional (P1, P2, ..), callee paths are cut to `Type::method`. Insensitive to operand order and temporaries."""
+    global _FORM_FIELDS
+    inv = {v: k for k, v in body.local_names().items() if 1 <= k <= body.argc}
+    out = []
+    _FORM_FIELDS = True
+    try:
+        sig = expr_sig(body, op)
+    finally:
+        _FORM_FIELDS = False
+    for x in sig:
+        if x.startswith("leaf:param:"):
+            n, _, fld = x[11:].partition(".")
+            out.append("P%s%s" % (inv.get(n, n), ("." + fld) if fld else ""))
+        else:
+            out.append(_short_leaf(x))
+    return tuple(sorted(out))
+
+
+def rvalue_label(body, rv):
+    k = rv.get("k")
+    if k in ("use", "cast"):
+        o = rv["o"]
+        if "p" not in o:
+            return "lit:%s" % o.get("v") if o.get("v") is not None else "const:%s" % str(o.get("c")).split("::")[-1]
+        return form(body, o)
+    if k == "agg":
+        if rv.get("ak") == "tuple":
+            return tuple(rvalue_label(body, {"k": "use", "o": o}) for o in rv.get("ops", []))
+        return ("agg:%s%s" % (str(rv.get("adt")).split("::")[-1], ("::" + rv["variant"]) if rv.get("variant") else ""),) + tuple(
+            rvalue_label(body, {"k": "use", "o": o}) for o in rv.get("ops", []))
+    if k == "bin":
+        if rv["op"] in CMP_OPS:
+            n = norm_cmp(CMP_OPS[rv["op"]], form(body, rv["a"]), form(body, rv["b"]), (), ())
+            return ("cmp:" + n[0], n[1], n[2])
+        return ("bin:" + rv["op"].lower(),) + form(body, rv["a"]) + form(body, rv["b"])
+    return (str(k),)
+
+
+def ret_labels(body, start, local=0):
+    """Labels of the first assignment to `local` (default: the return place) met on each path from block `start`."""
+    out = set()
+    seen = set()
+    work = [start]
+    while work:
+        bb = work.pop()
+        if bb in seen or bb is None:
+            continue
+        seen.add(bb)
+        blk = body.blocks[bb]
+        hit = False
+        for st in blk["s"]:
+            if st[0][0] == local and not st[0][1]:
+                out.add(rvalue_label(body, st[1]))
+                hit = True
+                break
+        if hit:
+            continue
+        t = blk["t"]
+        if t.get("k") == "call" and t.get("dest") and t["dest"][0] == local and not t["dest"][1]:
+            c = [x for x in body.calls if x.bb == bb][0]
+            out.add(("call:" + "::".join(re.sub(r"<[^<>]*>", "", c.callee).split("::")[-2:]),) + tuple(form(body, a) for a in c.args))
+            continue
+        if t.get("k") == "return":
+            out.add("<unset>")
+            continue
+        work.extend(body.succs(bb))
+    return out
+
+
+def norm_cmp(op, a, b, t, f):
+    """normal form of a decided comparison: ops lt/le/eq only"""
+    if op in ("gt", "ge"):
+        op, a, b = SWAP[op], b, a
+    if op == "ne":
+        op, t, f = "eq", f, t
+    if op == "eq" and b < a:
+        a, b = b, a
+    return (op, a, b, frozenset(t), frozenset(f))
+
+
+class _BoolSite:
+    def __init__(self, body, bb, local, line):
+        self.body, self.bb, self.result, self.line = body, bb, local, line
+
+    def where(self):
+        return "%s:%d" % (self.body.file, self.line)
+
+
+def _callname(c):
+    return "call:" + "::".join(re.sub(r"<[^<>]*>", "", re.sub(r"<[^<>]*>", "", c.callee)).split("::")[-2:])
+
+
+def decision_sites(body, local=0, ignore=None):
+    """[(normalised (op, A-form, B-form, labels-if-true, labels-if-false), site)] for every decision of `body`:
+    comparisons that are branched on or returned as the value of `local`, and bool-valued calls / flags that are branched on
+    (op 'if', A = (callee, receiver form..) or the flag's form). Labels are the forms of the first value assigned to `local`
+    on each side (see ret_labels). Sites whose operand forms match `ignore` (regex) are skipped (logging macros)."""
+    out = []
+    ig = re.compile(ignore) if ignore else None
+
+    def skip(*forms):
+        return ig is not None and any(ig.search(x) for f in forms for x in f)
+    cmp_results = set()
+    for s in cmp_sites(body):
+        cmp_results.add(s.result)
+        fa, fb = form(body, s.a), form(body, s.b)
+        if skip(fa, fb):
+            continue
+        bts = [(tt, ft) for (_, tt, ft) in branch_targets(body, s) if tt is not None and ft is not None]
+        for tt, ft in bts:
+            out.append((norm_cmp(s.op, fa, fb, ret_labels(body, tt, local), ret_labels(body, ft, local)), s))
+        if not bts:
+            par = value_parity(body, s.result) if local == 0 else None
+            if par is not None:
+                out.append((norm_cmp(s.op, fa, fb, {"lit:1" if par else "lit:0"}, {"lit:0" if par else "lit:1"}), s))
+    locs = body.rec.get("locals") or []
+    for c in body.calls:
+        if c.callee in CMP_CALLS or not c.dest or c.dest[1]:
+            continue
+        d = c.dest[0]
+        if d >= len(locs) or locs[d] != "bool" or c.exp:
+            continue
+        site = _BoolSite(body, c.bb, d, c.line)
+        fs = tuple(form(body, a) for a in c.args)
+        if skip((_callname(c),), *fs):
+            continue
+        for (_, tt, ft) in branch_targets(body, site):
+            if tt is None or ft is None:
+                continue
+            out.append((("if", (_callname(c),) + (fs[0] if fs else ()), tuple(x for f in fs[1:] for x in f), frozenset(ret_labels(body, tt, local)), frozenset(ret_labels(body, ft, local))), site))
+    # bool flags: parameters and values read out of tuples / fields
+    for d, ty in enumerate(locs):
+        if ty != "bool" or d == 0 or d in cmp_results:
+            continue
+        ds = body.defs().get(d, [])
+        is_param = 1 <= d <= body.argc
+        is_flag = any(x[0] == "assign" and x[3].get("k") == "use" and "p" in x[3]["o"] and x[3]["o"]["p"][1] for x in ds)
+        if not (is_param or is_flag):
+            continue
+        f = form(body, {"p": [d, []]})
+        if skip(f):
+            continue
+        site = _BoolSite(body, 0, d, body.line)
+        for (sw, tt, ft) in branch_targets(body, site):
+            if tt is None or ft is None:
+                continue
+            site = _BoolSite(body, sw, d, body.blocks[sw]["t"].get("line") or body.line)
+            out.append((("if", ("flag",) + f, (), frozenset(ret_labels(body, tt, local)), frozenset(ret_labels(body, ft, local))), site))
+    return out
+
+
+def decision_table(R, key, body, expect, what="", local=0, ignore=None):
+    """The set of branched comparisons of body equals the frozen table `expect`
+    (list of (op, A-form, B-form, labels-if-true, labels-if-false), op in lt/le/eq after normalisation)."""
+    R.fn(body)
+    have = decision_sites(body, local, ignore)
+    R.sites += len(have)
+    want = [norm_cmp(*e) if e[0] != "if" else (e[0], tuple(e[1]), tuple(e[2]), frozenset(e[3]), frozenset(e[4])) for e in expect]
+    ok = True
+    for w in want:
+        if not any(h == w for h, _ in have):
+            near = [(h, s) for h, s in have if h[1] == w[1] and h[2] == w[2]] or [(h, s) for h, s in have if h[0] == w[0] and (h[1] == w[1] or h[2] == w[2])]
+            R.bad(key, "%s: the decision `%s %s %s -> %s else %s` is no longer made%s" % (
+                what or short(body.path), sorted(w[1]), w[0], sorted(w[2]), sorted(map(str, w[3])), sorted(map(str, w[4])),
+                "; closest: `%s %s %s -> %s else %s`" % (sorted(near[0][0][1]), near[0][0][0], sorted(near[0][0][2]), sorted(map(str, near[0][0][3])), sorted(map(str, near[0][0][4]))) if near else ""),
+                [near[0][1].where()] if near else [body.where()])
+            ok = False
+    for h, s in have:
+        if h not in want:
+            R.bad(key, "%s: a decision outside the frozen table: `%s %s %s -> %s else %s`" % (what or short(body.path), sorted(h[1]), h[0], sorted(h[2]), sorted(map(str, h[3])), sorted(map(str, h[4]))), [s.where()])
+            ok = False
+    if ok:
+        R.ok(key, "%s: all %d decisions match the frozen table" % (what or short(body.path), len(want)), [s.where() for _, s in have[:4]])
+    return ok
